@@ -291,6 +291,8 @@ def check_property(prop, tier, seed0):
         t1 = time.time()
         traces, meta = [], []
         nbad = 0
+        too_long = 0
+        max_events = int(os.environ.get("VERIF_MAX_EVENTS", scen.get("max_events", {}).get(tier, 6000 if tier == "quick" else 40000)))
         for (tr, rc, err), seed in zip(res, seeds):
             if not os.path.exists(tr):
                 raise Infra(f"no trace from {binary} seed {seed}: rc={rc} {err}")
@@ -310,9 +312,15 @@ def check_property(prop, tier, seed0):
                     continue
                 else:
                     raise Infra(f"non-reproducible oracle failure {sname} seed {seed}")
+            if len(evs) > max_events:
+                # (long-stall schedules of spinning code) checked by the harness oracles only
+                too_long += 1
+                continue
             traces.append(evs)
             meta.append((seed, tr))
         srec = {"scenario": sname, "executions": len(res), "direct_oracle_failures": nbad}
+        if too_long:
+            srec["oracle_only_too_long"] = too_long
         if traces and not scen.get("no_validate"):
             chunk = 400
             accepted_total = 0
@@ -337,7 +345,8 @@ def check_property(prop, tier, seed0):
                     report(f"{sname} seed {seed}: invariant {inv} violated on the recorded execution", rp,
                            {"kind": "invariant", "scenario": sname, "invariant": inv})
                 accepted_total += len(acc)
-                rejected = [j for j in range(1, len(part) + 1) if j not in acc]
+                rejected = [j for j in range(1, len(part) + 1) if j not in acc and j not in set(st.get("cancelled", []))]
+                srec["unexamined_after_first_rejection"] = srec.get("unexamined_after_first_rejection", 0) + len(st.get("cancelled", []))
                 if st.get("violated"):
                     rejected = []  # TLC stopped at the violation; the others were not examined
                 for j in rejected[:3]:
